@@ -30,6 +30,9 @@ ISA['operand_sets']['spx'] = {'operand_values': {'sx': {'type': 'indirect_regist
                                                  'xi': {'type': 'indexed_register', 'register': 'a', 'bytecode': {'value': 5, 'size': 4},
                                                         'index_operands': {'i': {'type': 'numeric', 'argument': {'size': 8, 'byte_align': True}}}}}}
 ISA['instructions'] = dict(ISA['instructions'], lds={'bytecode': {'value': 0xB, 'size': 4}, 'operands': {'count': 1, 'operand_sets': {'list': ['spx']}}})
+# a relative branch whose offset field has no configured minimum / maximum: the field width is the only limit
+ISA['operand_sets']['rel_n'] = {'operand_values': {'rn': {'type': 'relative_address', 'argument': {'size': 8, 'byte_align': True}}}}
+ISA['instructions'] = dict(ISA['instructions'], brn={'bytecode': {'value': 0x93, 'size': 8}, 'operands': {'count': 1, 'operand_sets': {'list': ['rel_n']}}})
 # an operand-less instruction declared with an explicit empty operands block
 ISA['instructions'] = dict(ISA['instructions'], hlt0={'bytecode': {'value': 0x92, 'size': 8}, 'operands': {'count': 0}})
 ISA['instructions'] = dict(ISA['instructions'], n4={'bytecode': {'value': 0x3, 'size': 4}, 'operands': {'count': 1, 'operand_sets': {'list': ['imm4']}}})
@@ -39,7 +42,7 @@ ISA['predefined'] = {'memory_zones': [{'name': 'zz', 'start': 0x40, 'end': 0x5F}
 
 BASES = {
     'code': ['start: nop', '    ldi a, 5', '.loop:', '    ldi b, val+1', '    brr .loop', '    jmp start', '    push a',
-             '    ldm [val]', '    sel foo', '    n12 3', '    n4 7', '    hlt0', '    brc {start}', '    lds [sp+2]', '    lds [b + val]', '    lds a + 1', 'val: .byte 1, 2, $1F', '    .2byte start, val'],
+             '    ldm [val]', '    sel foo', '    n12 3', '    n4 7', '    hlt0', '    brc {start}', '    brn start', '    lds [sp+2]', '    lds [b + val]', '    lds a + 1', 'val: .byte 1, 2, $1F', '    .2byte start, val'],
     'control': ['#define SA 1', '#define SB SA', '#if SA == 1', '    .byte 1', '#elif SB', '    .byte 2', '#else', '    .byte 3', '#endif',
                 '#ifdef PRE', '    .byte SB', '#endif', '#ifndef NOPE', 'K = 4', '#endif', '    .byte K'],
     'layout': ['    .org $10', 'a1: .byte 1', '    .align 8', '    .fill 3, $55', '    .zero 2', '    .zerountil $25', '    .memzone zz',
@@ -88,15 +91,16 @@ def must_reject(lines):
             if t in ('nop', 'hlt0') and line.strip() == t:
                 for extra in ('5', 'a', 'val', '[5]', 'val, 5'):
                     out.append((f'line {i}: operand {extra!r} after {t}, which takes none', lines[:i] + [f'    {t} {extra}'] + lines[i + 1:]))
-            if t in ('nop', 'ldi', 'brr', 'jmp', 'push', 'ldm', 'sel', 'n12', 'n4', 'mac', 'hlt0', 'brc', 'lds'):
+            if t in ('nop', 'ldi', 'brr', 'jmp', 'push', 'ldm', 'sel', 'n12', 'n4', 'mac', 'hlt0', 'brc', 'lds', 'brn'):
                 out.append((f'line {i}: mnemonic {t} := unknown word', lines[:i] + [''.join(toks[:k] + ['qqq'] + toks[k + 1:])] + lines[i + 1:]))
-        m = re.match(r'^(\s*(?:\w+:\s*)?)(ldi|push|ldm|sel|n12|n4|brr|jmp)\s+(.*)$', line)
+        m = re.match(r'^(\s*(?:\w+:\s*)?)(ldi|push|ldm|sel|n12|n4|brr|jmp|brn)\s+(.*)$', line)
         if m:
-            bad = {'ldi': 'a, [5]', 'push': '5', 'ldm': 'a', 'sel': 'nokey_', 'n12': '[3]', 'n4': '[1]', 'brr': '[[1]]', 'jmp': 'a'}[m.group(2)]
+            bad = {'ldi': 'a, [5]', 'push': '5', 'ldm': 'a', 'sel': 'nokey_', 'n12': '[3]', 'n4': '[1]', 'brr': '[[1]]', 'jmp': 'a', 'brn': '[a]'}[m.group(2)]
             out.append((f'line {i}: operands no variant accepts', lines[:i] + [f'{m.group(1)}{m.group(2)} {bad}'] + lines[i + 1:]))
             # values just outside the signed-or-unsigned range of the field: 2^w, 2^w + 1, -2^(w-1) - 1, -(2^w - 1)
             bigs = {'ldi': ['a, 256', 'a, -129', 'a, -255'], 'n12': ['256', '-129', '257'], 'n4': ['16', '-9', '-15', '17'],
-                    'ldm': ['[65536]', '[-32769]'], 'jmp': ['65536']}.get(m.group(2), [])
+                    'ldm': ['[65536]', '[-32769]'], 'jmp': ['65536'],
+                    'brn': ['start + 1000', 'start - 1000', '$7000']}.get(m.group(2), [])
             for big in bigs:
                 out.append((f'line {i}: value {big} outside its field',
                             lines[:i] + [f'{m.group(1)}{m.group(2)} {big}'] + lines[i + 1:]))
